@@ -242,6 +242,10 @@ def graph_spec(nodes, rng=None):
     # they are ordinary XDR identifiers and the generic index is about names
     odd = ["String", "f32", "f64", "Vec", "Option", "Box", "Bytes", "T", "Error", "usize", "str", "Self_", "Result", "Some", "None"]
     pool = rng.shuffle(odd) if (rng and rng.chance(1, 4)) else None
+    # one graph in five: the names differ only by an affix (`n`, `n_t`, `n_v`, `v_n`, `nT`, …) — a lookup that normalises, strips or
+    # appends something makes two declarations one
+    if rng and pool is None and rng.chance(1, 5):
+        pool = rng.shuffle(["n", "n_t", "n_v", "v_n", "nT", "n_", "_n", "n_t_t", "N", "n1", "n_1", "t_n", "n_T", "n_type", "n_ptr"])
     name = lambda i: ((pool[i] if pool and i < len(pool) else "g%d" % i) if i >= 0 else "undeclared")
     # one graph in three (plain names only): members are named like declarations — the opaque member like its own struct / union
     # (`struct data { opaque data<>; }`), a reference like the type it names (`entry *entry`) or like its owner.  A member's name
